@@ -140,7 +140,8 @@ def run(repo: Repo, rep: Report) -> None:
         local = d.split("+")[-1] if d else ""
         fname = norm(v)
         canon = fname.replace("_well_formed_", "").replace("_", "").lower()
-        ok = d in conv and canon == local.lower() and tm.has(fname)
+        # (the checker: a function of the module, or a module-level name bound to a callable made of one - functools.partial, a lambda)
+        ok = d in conv and canon == local.lower() and _checker(tm, v) is not None
         rep.ob("C09.c-well-formed-table", tm, "_check_well_formed_types", "%s -> %s" % (local, fname), ok,
                "" if ok else "checker %s is registered for %s (converter present: %s): the wrong range check decides ill_typed" % (fname, local, d in conv), node=k)
 
@@ -256,6 +257,86 @@ def _accepts(e: ast.AST, vname: str, v: int, int_types: set[str]):
     return None
 
 
+def _module_value(mod, name: str) -> ast.AST | None:
+    """the one expression a module-level name is bound to: a single plain / annotated assignment at module level and no other store of the name in the module"""
+    idx = mod.__dict__.get("_c09_module_values")
+    if idx is None:
+        stores: dict[str, int] = {}
+        for n in ast.walk(mod.tree):
+            if isinstance(n, ast.Name) and isinstance(n.ctx, (ast.Store, ast.Del)):
+                stores[n.id] = stores.get(n.id, 0) + 1
+            elif isinstance(n, (ast.FunctionDef, ast.AsyncFunctionDef, ast.ClassDef)):
+                stores[n.name] = stores.get(n.name, 0) + 1
+            elif isinstance(n, ast.alias):
+                nm = (n.asname or n.name).split(".")[0]
+                stores[nm] = stores.get(nm, 0) + 1
+        idx = {}
+        for st in mod.tree.body:
+            if isinstance(st, (ast.Assign, ast.AnnAssign)) and getattr(st, "value", None) is not None:
+                ts = st.targets if isinstance(st, ast.Assign) else [st.target]
+                if len(ts) == 1 and isinstance(ts[0], ast.Name) and stores.get(ts[0].id) == 1:
+                    idx[ts[0].id] = st.value
+        mod.__dict__["_c09_module_values"] = idx
+    return idx.get(name)
+
+
+def _checker(tm, v: ast.AST, depth: int = 0):
+    """the callable an entry of a checker table denotes, as (the def or lambda that runs, how many of its leading positional parameters are already bound, the names
+    of its parameters bound by keyword): a function of the module, a lambda, functools.partial of such a callable, or a module-level name bound (once) to one of
+    these.  None for anything else."""
+    if depth > 4:
+        return None
+    if isinstance(v, ast.Lambda):
+        return v, 0, frozenset()
+    if isinstance(v, ast.Name):
+        d = tm.defs.get(v.id)
+        if isinstance(d, ast.FunctionDef):
+            return d, 0, frozenset()
+        b = _module_value(tm, v.id)
+        return None if b is None else _checker(tm, b, depth + 1)
+    if isinstance(v, ast.Call) and norm(v.func) in ("partial", "functools.partial") and v.args and not any(isinstance(a, ast.Starred) for a in v.args) \
+            and not any(k.arg is None for k in v.keywords):
+        r = _checker(tm, v.args[0], depth + 1)
+        if r is None:
+            return None
+        return r[0], r[1] + len(v.args) - 1, r[2] | {k.arg for k in v.keywords}
+    return None
+
+
+def _checker_value_param(ck) -> str | None:
+    """the parameter that receives the value: the second of those still open (a checker is called as checker(lexical, value))"""
+    f, nb, kw = ck
+    a = f.args
+    if a.vararg or a.kwarg:
+        return None
+    rest = [p.arg for p in (list(a.posonlyargs) + list(a.args))[nb:] if p.arg not in kw]
+    return rest[1] if len(rest) == 2 else None
+
+
+def _checker_accepts(tm, v: ast.AST, ck, pt: int, int_types: set[str]):
+    """three-valued: does the checker registered as `v` accept the integer pt (written as the lexical form str(pt))?  A plain function that is one return of a
+    comparison chain: by folding that chain (_accepts); otherwise - early exits, bounds bound by functools.partial, operator.* instead of a comparison, a shared
+    function behind several checkers - by evaluating the callable on (str(pt), pt) with vlib.h_c09.Evaluator.  None when neither can decide."""
+    f, nb, kw = ck
+    vname = _checker_value_param(ck)
+    if isinstance(f, ast.FunctionDef) and nb == 0 and not kw and vname is not None:
+        rets = [r for r in own_nodes(f) if isinstance(r, ast.Return) and r.value is not None]
+        if len(rets) == 1:
+            a = _accepts(rets[0].value, vname, pt, int_types)
+            if a is not None:
+                return a
+
+    def lookup(name):
+        d = tm.defs.get(name)
+        return d if isinstance(d, ast.FunctionDef) else None
+    ev = _H.Evaluator(lookup, STD, module_value=lambda n: _module_value(tm, n))
+    try:
+        r = ev.apply(ev.expr(v, {}, 0), [str(pt), pt], {}, 0)
+    except _H._Unk:
+        return None
+    return r if isinstance(r, bool) else None
+
+
 def more_rules(repo, rep, tm, xd, conv, entries, is_sub) -> None:
     # ------------------------------------------------------------------ (e)
     rep.rule("C09.e-year-field-padded",
@@ -308,18 +389,19 @@ def more_rules(repo, rep, tm, xd, conv, entries, is_sub) -> None:
     # ------------------------------------------------------------------ (f)
     rep.rule("C09.f-well-formed-checker-accepts-value-space",
              "every registered well-formedness checker of an integer-derived datatype accepts both ends of that datatype's XSD value space (and a far value on an "
-             "unbounded side), evaluated by constant folding of its comparison chain; an isinstance test in a checker admits every Python type the datatype's converter "
+             "unbounded side), evaluated by constant folding of its comparison chain or - a checker made by functools.partial of a shared function, one with early exits - "
+             "by evaluating its code on that value; an isinstance test in a checker admits every Python type the datatype's converter "
              "can produce", floor=16)
     wf = _table(tm, "_check_well_formed_types")
     int_types = {k for k, v in STD.items() if v is int}
     for k, v in zip(wf.keys, wf.values):
         d = _const_str(tm, k)
         local = d.split("+")[-1] if d else ""
-        if not (tm.has(norm(v)) and isinstance(tm.defs[norm(v)], ast.FunctionDef)):
+        ck = _checker(tm, v)
+        if ck is None:
             continue
-        f = tm.defs[norm(v)]
-        rets = [r for r in own_nodes(f) if isinstance(r, ast.Return) and r.value is not None]
-        vname = f.args.args[1].arg if len(f.args.args) >= 2 else "value"
+        f = ck[0]
+        vname = _checker_value_param(ck) or "value"
         # isinstance coverage
         cv = conv.get(d)
         produces = [p.strip() for p in CONVERTER_RESULT.get(cv, cv or "").split("|") if p.strip()]
@@ -329,7 +411,7 @@ def more_rules(repo, rep, tm, xd, conv, entries, is_sub) -> None:
                 missing = [p for p in produces if not any(is_sub(p, t) for t in ts)]
                 rep.ob("C09.f-well-formed-checker-accepts-value-space", tm, norm(v), "%s: %s admits converter results %s" % (local, norm(n), "|".join(produces)), not missing,
                        "" if not missing else "the converter registered for %s (%s) can return %s, which this isinstance test rejects: valid lexical forms with such a value are flagged ill-typed" % (local, cv, "/".join(missing)), node=n)
-        if local not in XSD_INT_BOUNDS or len(rets) != 1:
+        if local not in XSD_INT_BOUNDS:
             continue
         lo, hi = XSD_INT_BOUNDS[local]
         pts = []
@@ -338,12 +420,12 @@ def more_rules(repo, rep, tm, xd, conv, entries, is_sub) -> None:
         if (lo is None or lo <= 0) and (hi is None or hi >= 0):
             pts.append(0)
         for pt in pts:
-            a = _accepts(rets[0].value, vname, pt, int_types)
+            a = _checker_accepts(tm, v, ck, pt, int_types)
             if a is None:
                 rep.info.setdefault("C09.f_unmodelled", []).append("%s at %d" % (norm(v), pt))
                 continue
             rep.ob("C09.f-well-formed-checker-accepts-value-space", tm, norm(v), "%s accepts %d" % (local, pt), a,
-                   "in the value space and accepted" if a else "%d is in the value space of xsd:%s but the checker rejects it: the valid literal is flagged ill-typed" % (pt, local), node=rets[0])
+                   "in the value space and accepted" if a else "%d is in the value space of xsd:%s but the checker rejects it: the valid literal is flagged ill-typed" % (pt, local), node=k)
 
     # ------------------------------------------------------------------ (g)
     rep.rule("C09.g-duration-equality-covers-timedelta",
@@ -838,6 +920,28 @@ def _rule_n(repo, rep, tm, xd, conv) -> None:
                    "as a lexical form" % (name, norm(recv), name, name, name, ", ".join(byt)), node=c)
 
 
+def _zero_duration_value(xd, t: str):
+    """the zero value of a duration type as an argument of the evaluator: timedelta(0) (a fact of the standard library: days, seconds and microseconds are 0, and
+    it is false), Duration() - the attributes its __init__ stores, a timedelta where a timedelta is stored and 0 elsewhere; attributes it does not have are
+    looked up on the timedelta when the class says so (__getattr__); true, as the class defines neither __bool__ nor __len__"""
+    td = _H.Obj("timedelta", {"days": 0, "seconds": 0, "microseconds": 0}, falsy=True)
+    if t == "timedelta":
+        return td
+    if t != "Duration" or not xd.has("Duration.__init__"):
+        return None
+    init = xd.func("Duration.__init__")
+    me = init.args.args[0].arg if init.args.args else None
+    attrs: dict = {}
+    for n in own_nodes(init):
+        if isinstance(n, ast.Assign) and len(n.targets) == 1 and isinstance(n.targets[0], ast.Attribute) and norm(n.targets[0].value) == me:
+            attrs[n.targets[0].attr] = td if any(isinstance(c, ast.Call) and norm(c.func).rsplit(".", 1)[-1] == "timedelta" for c in ast.walk(n.value)) else 0
+    if not attrs:
+        return None
+    bases = tuple(norm(b).rsplit(".", 1)[-1] for b in xd.cls("Duration").bases)
+    return _H.Obj("Duration", attrs, falsy=None if (xd.has("Duration.__bool__") or xd.has("Duration.__len__") or bases) else False,
+                  delegate=td if xd.has("Duration.__getattr__") else None, bases=bases)
+
+
 def _is_zero_duration(e: ast.AST) -> bool:
     """timedelta() / timedelta(0) / Duration() / Duration(days=0, ...): a duration constructor all of whose arguments fold to 0"""
     return isinstance(e, ast.Call) and isinstance(e.func, ast.Name) and e.func.id in ("timedelta", "Duration") \
@@ -924,6 +1028,20 @@ def _rule_o(repo, rep, tm, xd, conv, rid="C09.o-zero-duration-form-in-lexical-sp
                 return out
         return set()
 
+    def written_for_zero(lx, t):
+        """the text the lexicaliser writes for the zero value of the Python type t: its code (with the functions of term.py / xsd_datetime.py it calls) evaluated
+        on that argument by vlib.h_c09.Evaluator - however the text is put together (constants, +, %, f-strings, join; flags, early exits); None when the
+        evaluation meets something it does not model"""
+        zero = _zero_duration_value(xd, t)
+        f = lx if isinstance(lx, ast.Lambda) else (fn_named(lx.id) if isinstance(lx, ast.Name) else None)
+        if zero is None or f is None:
+            return None
+        try:
+            v = _H.Evaluator(fn_named, STD).call(f, [zero])
+        except _H._Unk:
+            return None
+        return v if isinstance(v, str) else None
+
     for d in sorted(k for k, cv in conv.items() if cv == "parse_xsd_duration"):
         if d not in XSD_DURATION_LEXICAL:
             raise AnalysisError("no lexical space known for duration datatype %s" % d)
@@ -931,14 +1049,18 @@ def _rule_o(repo, rep, tm, xd, conv, rid="C09.o-zero-duration-form-in-lexical-sp
             lx = select(t, d)
             if lx is None:
                 raise AnalysisError("no lexicaliser found for (%s, %s)" % (t, d))
+            # the constant forms the lexicaliser can hand back whatever the value, and the form its code gives for the zero value
             zs = {z for z in forms(lx, None) if _re.fullmatch(r"-?P[0-9T][0-9A-Z.]*", z)}
+            z0 = written_for_zero(lx, t)
+            if z0 is not None:
+                zs.add(z0)
             if not zs:
                 raise AnalysisError("the zero form written by %s could not be determined" % norm(lx)[:60])
-            for z in sorted(zs):
-                ok = XSD_DURATION_LEXICAL[d].fullmatch(z) is not None
-                rep.ob(rid, tm, "_castPythonToLiteral", "(%s, %s) -> %s writes %r" % (t, d, norm(lx)[:60], z), ok,
-                       "in the lexical space" if ok else ("%r is not in the lexical space of xsd:%s: " % (z, d)) + (("a zero %s written as xsd:%s - Literal(%s(), datatype=XSD.%s), the difference of two equal literals - is an ill-formed literal" % (t, d, t, d))
-                                                       if other_types else ("Literal('P0Y', datatype=XSD.%s) is normalised to an ill-formed literal" % d)), node=lx)
+            # one obligation per (Python type, datatype): every form found lies in the lexical space (however many constants the lexicaliser is written with)
+            bad = [z for z in sorted(zs) if XSD_DURATION_LEXICAL[d].fullmatch(z) is None]
+            rep.ob(rid, tm, "_castPythonToLiteral", "(%s, %s) -> %s writes %s" % (t, d, norm(lx)[:60], " / ".join(repr(z) for z in sorted(zs))), not bad,
+                   "in the lexical space" if not bad else ("%s is not in the lexical space of xsd:%s: " % (" / ".join(repr(z) for z in bad), d)) + (("a zero %s written as xsd:%s - Literal(%s(), datatype=XSD.%s), the difference of two equal literals - is an ill-formed literal" % (t, d, t, d))
+                                                        if other_types else ("Literal('P0Y', datatype=XSD.%s) is normalised to an ill-formed literal" % d)), node=lx)
 
 
 # ------------------------------------------------------------------------------------------------------------- (p)
@@ -1088,8 +1210,9 @@ def _rule_r(repo, rep, mods) -> None:
     rid = "C09.r-isinstance-chain-no-shadowed-class"
     rep.rule(rid,
              "in every chain of isinstance tests on one subject in rdflib/term.py and rdflib/xsd_datetime.py that are tried one after the other (if / elif; an `if` whose "
-             "branches all leave the function followed by the next `if`; and, when all tests failed and the rest is `return <private function>(...)`, the chain that function "
-             "starts with, about the parameter the subject is bound to - at every call of it), no class tested by a later branch is a subclass of a class that an earlier "
+             "branches all leave the function followed by the next `if`; a chain written inside a later branch of another chain, which runs after the earlier tests of that "
+             "one failed; the rows of a constant table that a `for` runs through until the first one matches; and, when all tests failed and the rest is `return <private "
+             "function>(...)`, the chain that function starts with, about the parameter the subject is bound to - at every call of it), no class tested by a later branch is a subclass of a class that an earlier "
              "branch tests unconditionally: that branch is dead for it (bool after int: Literal(True).eq(True) fell into the numeric branch and returned NotImplemented)", floor=17)
     calls = _H.Calls(repo)
     for m in mods:
@@ -1121,9 +1244,27 @@ def _rule_r(repo, rep, mods) -> None:
                 common = here if common is None else [x for x in common if x in here]
             return common or []
 
+        member = {id(br): (ch, k) for _q, _fn, chs in chains.values() for ch, _rest in chs for k, br in enumerate(ch)}
+
+        def enclosing(fn, chain):
+            """(subject, class) pairs that the chains around this one have tested, and seen fail, where it starts: a chain written
+            inside a branch of another chain runs only when the earlier branches of that chain were not taken (inside its final
+            `else`: none of them) - the same control flow as further `elif`s of the outer chain"""
+            child = chain[0]
+            for p in m.parents(chain[0]):
+                if p is fn:
+                    break
+                if isinstance(p, ast.If) and id(p) in member:
+                    ch, k = member[id(p)]
+                    failed = ch[:k] if any(child is x for x in p.body) else (ch[:k + 1] if any(child is x for x in p.orelse) else None)
+                    if failed is not None:
+                        return [(s_, t) for s_, t in enclosing(fn, ch) + inherited(fn, ch) + unconditional(failed) if s_.isidentifier() and not any(x.id == s_ for x in ast.walk(fn) if isinstance(x, ast.Name) and not isinstance(x.ctx, ast.Load))]
+                child = p
+            return []
+
         for q, fn in m.functions():
             for chain, _rest in chains[id(fn)][2]:
-                seen: list[tuple[str, str]] = inherited(fn, chain)  # (subject, class) tested by earlier branches
+                seen: list[tuple[str, str]] = inherited(fn, chain) + enclosing(fn, chain)  # (subject, class) tested by earlier branches
                 if len(chain) < 2 and not seen:
                     continue
                 for br in chain:
@@ -1328,7 +1469,7 @@ def _rule_v(repo, rep, tm, conv) -> None:
     rep.rule(rid,
              "every integer-derived datatype with a converter in XSDToPython whose XSD value space is bounded (xsd:long, int, short, byte, their unsigned variants, "
              "non/Positive/Negative-Integer) has a checker registered in _check_well_formed_types - the fallback _well_formed_by_value accepts every value - and that checker, "
-             "evaluated by constant folding of its comparison chain, REJECTS the integers next to each bound: else '9223372036854775808'^^xsd:long and "
+             "evaluated by constant folding of its comparison chain (or, where it is made by functools.partial of a shared function or has early exits, by evaluating its code), REJECTS the integers next to each bound: else '9223372036854775808'^^xsd:long and "
              "'18446744073709551616'^^xsd:unsignedLong are taken for well-typed and normalised (counterpart of rule f, which checks that the bounds themselves are accepted)", floor=20)
     wf = _table(tm, "_check_well_formed_types")
     if not isinstance(wf, ast.Dict):
@@ -1348,20 +1489,17 @@ def _rule_v(repo, rep, tm, conv) -> None:
                        "no checker is registered for xsd:%s, so the fallback (a value could be made) decides: %d, outside the value space, is well-typed" % (d, pt), node=wf)
             continue
         fname = norm(ck)
-        if not (tm.has(fname) and isinstance(tm.defs[fname], ast.FunctionDef)):
-            raise AnalysisError("checker %s of xsd:%s is not a function of term.py" % (fname, d))
-        f = tm.defs[fname]
-        rets = [r for r in own_nodes(f) if isinstance(r, ast.Return) and r.value is not None]
-        if len(rets) != 1 or len(f.args.args) < 2:
-            raise AnalysisError("checker %s: unmodelled shape" % fname)
+        cal = _checker(tm, ck)
+        if cal is None:
+            raise AnalysisError("checker %s of xsd:%s is not a callable defined in term.py" % (fname, d))
         rep.analysed("rdflib/term.py:" + fname)
         for pt in outside:
-            a = _accepts(rets[0].value, f.args.args[1].arg, pt, int_types)
+            a = _checker_accepts(tm, ck, cal, pt, int_types)
             if a is None:
                 raise AnalysisError("checker %s: cannot decide whether it accepts %d" % (fname, pt))
             rep.ob(rid, tm, fname, "xsd:%s rejects %d" % (d, pt), not a,
                    "outside the value space and rejected" if not a else "%d is outside the value space of xsd:%s (%s .. %s) but the checker accepts it: the literal is not flagged ill-typed "
-                   "and is normalised" % (pt, d, lo if lo is not None else "-inf", hi if hi is not None else "inf"), node=rets[0])
+                   "and is normalised" % (pt, d, lo if lo is not None else "-inf", hi if hi is not None else "inf"), node=ck)
 
 
 # ------------------------------------------------------------------------------------------------------------- (x)
@@ -1452,6 +1590,8 @@ _run_base4 = run
 
 
 def run(repo: Repo, rep: Report) -> None:  # noqa: F811
+    # (a `for` over the rows of a constant table is the chain of branches it stands for: the rules read it in that form)
+    repo = _H.unrolled(repo)
     _layer(rep, _run_base4, repo)
     rep.extra["explanation"] = rep.extra.get("explanation", "") + (
         " (t) value-space comparisons read an operand's value only where it is known not to be ill-typed; (u) a value read from a lexical form is re-lexicalised only for a "
@@ -1471,7 +1611,7 @@ def run(repo: Repo, rep: Report) -> None:  # noqa: F811
 
 
 def _rule_w(repo, rep, tm, xd, conv) -> None:
-    _rule_o(repo, rep, tm, xd, conv, rid="C09.w-zero-form-of-every-duration-value-type", floor=5, other_types=True, text=(
+    _rule_o(repo, rep, tm, xd, conv, rid="C09.w-zero-form-of-every-duration-value-type", floor=3, other_types=True, text=(
         "as rule o, for the OTHER Python types the converter of the duration datatypes yields (CONVERTER_RESULT of parse_xsd_duration: a Duration besides the timedelta it builds "
         "for a duration without years and months - such values come from arithmetic, e.g. the difference of two equal xsd:yearMonthDuration literals, and from the caller): the "
         "lexicaliser that _castPythonToLiteral selects for (type, datatype) writes the zero duration inside the lexical space of the datatype - Literal(Duration(), "
